@@ -48,5 +48,21 @@ func IsNoResponseCode(code codes.Code, noRespValue uint32) error {
 			return ErrMessageNotInterested
 		}
 	}
+	// RFC 7967 section 2.1 expresses disinterest per response class (2.xx, 4.xx, 5.xx), so codes
+	// that are not in the lists above (e.g. 2.31, 4.08, 4.29) are suppressed with their class as well.
+	if code <= 0xff {
+		var classBit uint32
+		switch code >> 5 {
+		case 2:
+			classBit = 2
+		case 4:
+			classBit = 8
+		case 5:
+			classBit = 16
+		}
+		if noRespValue&classBit != 0 {
+			return ErrMessageNotInterested
+		}
+	}
 	return nil
 }
